@@ -195,7 +195,7 @@ def _with_tails(t):
     return t
 
 
-def targeted(oc):
+def targeted(oc, when=''):
     """Three-step histories per carrying class: merge X; edit inside the carried story; inspect and re-use X."""
     from . import impl
     X = lambda: B.story('X', [B.item('X1'), B.p('text'), B.item('X2')], md=B.timing_md(duration='3'))
@@ -251,6 +251,29 @@ def targeted(oc):
     base_cls = lambda c: c.split('-')[0]
     for cname, carrier in carriers.items():
         s = sid(cname)
+        # the same object once more after the running order has changed back to the SAME NUMBER of children (a story
+        # deleted after one was added): a live running order behaves like a freshly read one of identical content
+        ro_text = TJ.to_text(B.ro_doc([B.story('A', [B.item('I1'), B.item('X1'), B.item('X2')]), B.story('B', [B.item('I1')]),
+                                       B.story('C', [])] + ([B.story('X', [B.item('X1'), B.item('old')])] if 'itself' in cname else []),
+                                      extra=[B.timing_md(duration='1', schema='s1')]))
+        ctext = TJ.to_text(carrier)
+        for restore in (B.story_delete(['C']), B.story_replace('C', [B.story('C2', [])]), B.ro_replace([B.story('A', [B.item('I1'), B.item('X1'), B.item('X2')]), B.story('B', [B.item('I1')]), B.story('Z', [])])):
+            ro = impl.load(ro_text)
+            x = impl.load(ctext)
+            merge(ro, x)
+            merge(ro, impl.load(TJ.to_text(restore)))
+            now = str(ro)
+            o_live = merge(ro, x)
+            fresh = impl.load(now)
+            o_fresh = merge(fresh, impl.load(ctext))
+            oc.evaluations += 1
+            oc.in_domain += 1
+            oc.count('targeted-remerge:' + cname)
+            if (o_live['err'], o_live['warns'], str(ro)) != (o_fresh['err'], o_fresh['warns'], str(fresh)):
+                oc.failing.append({'kind': 'alias-targeted', 'label': f'{cname}, then {TJ.to_text(restore)[:60]}..., then the same object again{when}', 'ro_text': ro_text,
+                                   'carrier': ctext, 'edit': TJ.to_text(restore), 'cls': cname, 'story': s, 'remerge': True,
+                                   'spec': 'adding the same message object again to the live running order differs from adding a fresh copy to a freshly read running order of identical content',
+                                   'impl': {'live': [o_live['err'], o_live['warns']], 'fresh': [o_fresh['err'], o_fresh['warns']]}})
         edits = {
             'item delete': B.item_delete(s, ['X1']),
             'item insert': B.item_insert(s, BLANK, [B.item('NEW')]),
@@ -293,7 +316,7 @@ def targeted(oc):
             h = stable_hash([cname, ename])
             oc.nontrivial.add(h)
             if bad:
-                oc.failing.append({'kind': 'alias-targeted', 'label': f'{cname} then {ename}', 'ro_text': ro_text,
+                oc.failing.append({'kind': 'alias-targeted', 'label': f'{cname} then {ename}{when}', 'ro_text': ro_text,
                                    'carrier': ctext, 'edit': etext, 'cls': cname, 'story': s, 'spec': '; '.join(bad)})
             elif len(oc.samples) < 3:
                 oc.samples.append({'label': f'{cname} then {ename}', 'carrier': ctext[:600], 'edit': etext[:400]})
@@ -335,6 +358,20 @@ def fresh_process_check(oc, pairs):
 def run_c13(tier, seed):
     oc = Outcome('C13')
     targeted(oc)
+    # ... and once more after collections have been merged in this process - one of them strictly, failing half-way:
+    # nothing a collection does may change how later merges treat their payload
+    from mosromgr.moscollection import MosCollection
+    coll = [TJ.to_text(B.ro_doc([B.story('A', [B.item('I1')])], message_id='1')), TJ.to_text(B.story_append([B.story('N', [B.item('n1')])], message_id='2')),
+            TJ.to_text(B.item_replace('A', 'nowhere', [B.item('r')], message_id='3')), TJ.to_text(B.story_insert('A', [B.story('M', [])], message_id='4')),
+            TJ.to_text(B.ro_delete(message_id='9'))]
+    for strict in (True, False, True):
+        with warnings.catch_warnings():
+            warnings.simplefilter('ignore')
+            try:
+                MosCollection.from_strings(coll).merge(strict=strict)
+            except Exception:  # noqa: BLE001 - the strict merge is meant to fail at message 3
+                pass
+    targeted(oc, when=' (after a strict collection merge failed earlier in the process)')
     oc.extra['pairs'] = []
     n_hist = 80 if tier == 'quick' else 6000
     for k in range(n_hist):
@@ -352,7 +389,17 @@ def run_c13(tier, seed):
 def replay(pid, fl):
     from . import impl
     oc = Outcome(pid)
-    if fl['kind'] == 'alias-targeted':
+    if fl['kind'] == 'alias-targeted' and fl.get('remerge'):
+        ro = impl.load(fl['ro_text'])
+        x = impl.load(fl['carrier'])
+        merge(ro, x)
+        merge(ro, impl.load(fl['edit']))
+        now = str(ro)
+        o_live = merge(ro, x)
+        fresh = impl.load(now)
+        o_fresh = merge(fresh, impl.load(fl['carrier']))
+        bad = (o_live['err'], o_live['warns'], str(ro)) != (o_fresh['err'], o_fresh['warns'], str(fresh))
+    elif fl['kind'] == 'alias-targeted':
         ro, ro2 = impl.load(fl['ro_text']), impl.load(fl['ro_text'])
         x = impl.load(fl['carrier'])
         s0 = str(x)
